@@ -146,6 +146,8 @@ def main(argv=None):
         jobs = [j for j in jobs if only in j["name"]]
     for j in jobs:
         j.setdefault("fatal", spec["fatal"])
+        if tier == "thorough":
+            j["log_queries"] = True
     # big jobs first; the seed only perturbs the order
     jobs.sort(key=lambda j: (-j.get("weight", 1), hashlib.md5((j["name"] + str(seed)).encode()).hexdigest()))
     t0 = time.time()
@@ -201,6 +203,28 @@ def main(argv=None):
             broken.append({"job": rec["harness"], "status": "harness-error",
                            "message": "fresh-interpreter replay of %s did not reproduce: %s"
                                       % (path, (p.stdout + p.stderr)[-800:])})
+    # thorough tier: second engine and second/third solver
+    xcheck = {}
+    if tier == "thorough" and not only:
+        from .xcheck import run_crosshair, recheck_queries
+        xh_res, xh_viol = run_crosshair(prop)
+        xcheck["crosshair"] = xh_res
+        for fn, kwargs in xh_viol:
+            rec = {"tag": prop + ".crosshair", "inputs": {}, "info": {"function": fn, "args": kwargs},
+                   "reproduced": True, "params": {"fn": fn, "args": kwargs}, "harness": "xh",
+                   "property": prop, "fatal": [prop + ".crosshair"], "float_exact": True}
+            digest = hashlib.sha1(repr((fn, sorted(kwargs.items()))).encode()).hexdigest()[:12]
+            path = os.path.join(REPLAYS, "%s-xh-%s.json" % (prop, digest))
+            json.dump(rec, open(path, "w"), indent=1, default=str)
+            confirmed.append(path)
+        entries = [tuple(e) for d in results for e in d.get("query_log", [])]
+        import random
+        random.Random(seed).shuffle(entries)
+        qstats, qbad = recheck_queries(entries)
+        xcheck["solvers"] = qstats
+        if qbad:
+            broken.append({"job": "cross-solver", "status": "harness-error",
+                           "message": "solver disagreement: %r" % qbad[:2]})
     wall = time.time() - t0
     status = "ok"
     if vac.get("vacuous") and not confirmed:
@@ -209,7 +233,7 @@ def main(argv=None):
         status = "inconclusive"
     if confirmed:
         status = "violation"
-    write_evidence(prop, tier, seed, spec, results, wall, status, confirmed, known, vac)
+    write_evidence(prop, tier, seed, spec, results, wall, status, confirmed, known, vac, xcheck)
     shown = set()
     for f, rec in known:
         if f["id"] not in shown:
